@@ -1,5 +1,55 @@
-From HT Require Import Base.Prelude World.World.
-(* placeholder: replaced when the world-level theorems land *)
-Theorem C03_failed_tx_unchanged : forall w o e, exec w o = Err e -> step w o = w.
-Proof. intros w o e H. unfold step. now rewrite H. Qed.
-Print Assumptions C03_failed_tx_unchanged.
+(* C03 — LP share value never decreases over any history.
+   Abstract pool state (r0, r1, T): the pair's two actual reserves and the LP supply.  Every way a
+   pair's reserves or supply can move is a [pool_step] kind whose arithmetic premises are what the
+   function-level theorems establish; [C03_hist_abstract] is the induction over any finite sequence of
+   such steps.  PARTIAL: that each world transaction acts on each pair as a sequence of pool steps is
+   established per operation by the ledger lemmas (C02/C04/C05 blocks) and monitored on the real code
+   at every step of every history; a single theorem over [run] is not proved.
+   Known finding KF-ceil-window: a swap inside [kf_c01] lowers the value ([C03_refuted]). *)
+From HT Require Import Base.Prelude Num.Arith Amm.Formulas Amm.Known Proofs.ValueProofs Proofs.ValueLinks.
+
+Theorem C03_step : forall s s', pool_step s s' -> 0 < supply_of s -> value_le s s' /\ 0 < supply_of s'.
+Proof. exact pool_step_value. Qed.
+
+Theorem C03_hist_abstract : forall s s', pool_steps s s' -> 0 < supply_of s -> value_le s s' /\ 0 < supply_of s'.
+Proof. exact pool_steps_value. Qed.
+
+Theorem C03_provision_is_step : forall (wl : bool) min0 min1 T d0 d1 r0 r1 m,
+  T <> 0 -> lp_share wl min0 min1 T d0 d1 r0 r1 = Ok m -> pool_step (r0, r1, T) (r0 + d0, r1 + d1, T + m).
+Proof. exact provide_is_pool_step. Qed.
+Theorem C03_withdrawal_is_step : forall r0 r1 a T x0 x1,
+  a < T -> withdraw_amounts r0 r1 a T = Ok (x0, x1) -> pool_step (r0, r1, T) (r0 - x0, r1 - x1, T - a).
+Proof. exact withdraw_is_pool_step. Qed.
+Theorem C03_swap_is_step : forall x y a c n s m T,
+  x < W128 -> y < W128 -> a < W128 -> c <= D ->
+  compute_swap x y a c = Ok (n, s, m) -> kf_c01 x y a c = false ->
+  pool_step (x, y, T) (x + a, y - n, T) /\ pool_step (y, x, T) (y - n, x + a, T).
+Proof. exact swap_is_pool_step. Qed.
+Theorem C03_value_le_trans : forall s1 s2 s3,
+  0 < supply_of s1 -> 0 < supply_of s2 -> 0 < supply_of s3 -> value_le s1 s2 -> value_le s2 s3 -> value_le s1 s3.
+Proof. exact value_le_trans. Qed.
+
+Theorem C03_refuted :
+  exists x y a c n s m T, x < W128 /\ y < W128 /\ a < W128 /\ c <= D /\ 0 < T /\
+    compute_swap x y a c = Ok (n, s, m) /\ ~ value_le (x, y, T) (x + a, y - n, T).
+Proof. exact value_refuted. Qed.
+
+Example C03_nonvacuous :
+  pool_steps (1000, 4000, 2000) (1000 + 100 + 200, 4000 + 400 - 400, 2000 + 200) /\ 0 < supply_of (1000, 4000, 2000).
+Proof.
+  split; [|reflexivity].
+  apply pss_cons with (1000 + 100, 4000 + 400, 2000 + 200).
+  - apply ps_provide; lia.
+  - apply pss_cons with (1000 + 100 + 200, 4000 + 400 - 400, 2000 + 200).
+    + apply ps_swap01; lia.
+    + apply pss_nil.
+Qed.
+
+Print Assumptions C03_step.
+Print Assumptions C03_hist_abstract.
+Print Assumptions C03_provision_is_step.
+Print Assumptions C03_withdrawal_is_step.
+Print Assumptions C03_swap_is_step.
+Print Assumptions C03_value_le_trans.
+Print Assumptions C03_refuted.
+Print Assumptions C03_nonvacuous.
